@@ -14,7 +14,7 @@ import json
 import os
 import unicodedata
 
-from ..ctx import Ctx, is_lib_exc, outcome
+from ..ctx import Ctx, is_lib_exc, outcome, tb_origin
 from ..hooks import Reach, backend_available, set_backend
 from ..ref import bip32 as rb
 from ..ref import gf256
@@ -150,9 +150,13 @@ def finalize(m: dict, tier: str) -> list[str]:
     for k in need:
         if not c.get(k):
             out.append(f"input class {k} never evaluated")
-    for k in ("slip39-polynomial", "slip39-reference-decode", "bip39-reference", "electrum-reference", "bip85-reference"):
+    for k in ("slip39-polynomial", "slip39-reference-decode", "bip39-reference", "electrum-reference", "bip85-reference",
+              "dispatch:singular-is-first-of-plural"):
         if not mon.get(k):
             out.append(f"monitor {k} made no evaluation")
+    for k in ("dispatch:subst:invalid", "dispatch:subst:valid"):
+        if not m["stats"].get(k):
+            out.append(f"{k} never observed")
     for k in MECH_FUNCS:
         if not r.get(k):
             out.append(f"mechanism {k} never entered")
@@ -182,6 +186,34 @@ def _reach(ctx: Ctx) -> Reach:
         reach.watch(name, obj)
     reach.start()
     return reach
+
+
+def _dispatch(ctx, dispatch, sent, lang, case, must=(), must_not=(), tag=""):
+    """all_seed_types_from_mnemonic names `must` and none of `must_not`; seed_type_from_mnemonic is its first entry ("" if none)."""
+    a = (sent,) if lang is None else (sent, lang)
+    o = outcome(dispatch.all_seed_types_from_mnemonic, *a)
+    o1 = outcome(dispatch.seed_type_from_mnemonic, *a)
+    ctx.mon("dispatch:singular-is-first-of-plural")
+    for x in (o, o1):
+        if x[0] == "raise" and not is_lib_exc(x[1]):
+            ctx.violation(f"dispatch:foreign-exception:{type(x[1]).__name__}@{tb_origin(x[1])}", f"{sent!r}: {x[1]!r}", {**case, "mnemonic": sent})
+            return o
+    if o[0] == "ok" and o1[0] == "ok":
+        if o1[1] != (o[1][0] if o[1] else ""):
+            ctx.violation("dispatch:singular-is-not-the-first-of-the-plural", f"{sent!r}: seed_type_from_mnemonic -> {o1[1]!r}, "
+                          f"all_seed_types_from_mnemonic -> {o[1]!r}", {**case, "mnemonic": sent})
+    elif o[0] != o1[0]:
+        ctx.violation("dispatch:singular-and-plural-disagree-on-refusal", f"{sent!r}: {o1!r} vs {o!r}", {**case, "mnemonic": sent})
+    if o[0] == "ok":
+        for t in must:
+            if t not in o[1]:
+                ctx.violation(f"dispatch:{tag}-not-named", f"{sent!r}: all_seed_types_from_mnemonic -> {o[1]!r}, {t!r} missing", {**case, "mnemonic": sent})
+        for t in must_not:
+            if t in o[1]:
+                ctx.violation(f"dispatch:{tag}-named-{t}", f"{sent!r}: all_seed_types_from_mnemonic -> {o[1]!r} names {t!r}", {**case, "mnemonic": sent})
+    elif must:
+        ctx.violation(f"dispatch:{tag}-not-named", f"{sent!r}: all_seed_types_from_mnemonic raised {o[1]!r}", {**case, "mnemonic": sent})
+    return o
 
 
 def _exc_tag(e: BaseException) -> str:
@@ -499,10 +531,7 @@ def _bip39_part(ctx: Ctx, lang: str, deadline: float) -> None:
                     ctx.stat("bip39:autolang:ambiguous-refused")
                 ctx.case("bip39:autolang", ("auto", lang, e))
                 # ---- dispatch names the scheme
-                o = outcome(dispatch.all_seed_types_from_mnemonic, ref_sentence, lang)
-                if o[0] == "raise" or "bip39" not in o[1]:
-                    ctx.violation("dispatch:valid-bip39-sentence-not-named", f"{lang}: all_seed_types_from_mnemonic -> {o[1]!r}",
-                                  {**case, "mnemonic": ref_sentence})
+                _dispatch(ctx, dispatch, ref_sentence, lang, case, must=("bip39",), must_not=("bip39_wordlist",), tag="valid-bip39-sentence")
                 ctx.case("dispatch:bip39", ("disp", lang, e))
                 # ---- seeds and master keys
                 typed = [("canonical", ref_sentence), ("nfc", unicodedata.normalize("NFC", ref_sentence)),
@@ -570,6 +599,14 @@ def _bip39_part(ctx: Ctx, lang: str, deadline: float) -> None:
                                               {**case, "mnemonic": sent, "position": pos})
                             elif o[1] != _binstr(ref_e):
                                 ctx.violation("bip39-decode:wrong-entropy", f"{lang}: {sent!r} decoded to {o[1]!r}", {**case, "mnemonic": sent})
+                        # the dispatcher gives the same verdict on a sample of them (and on every one whose checksum happens to hold)
+                        if ref_e is not None or (pos + j) % 16 == 0:
+                            if ref_e is None:
+                                _dispatch(ctx, dispatch, sent, lang, case, must=("bip39_wordlist",), must_not=("bip39",), tag="wrong-checksum-bip39-sentence")
+                                ctx.stats["dispatch:subst:invalid"] += 1
+                            else:
+                                _dispatch(ctx, dispatch, sent, lang, case, must=("bip39",), must_not=("bip39_wordlist",), tag="valid-bip39-sentence")
+                                ctx.stats["dispatch:subst:valid"] += 1
                 ctx.bulk("bip39:subst:valid", nv)
                 ctx.bulk("bip39:subst:invalid", ni)
                 ctx.sample("bip39:subst", {"lang": lang, "sentence": ref_sentence, "positions": len(idx), "substitutes_per_position": K,
@@ -823,9 +860,7 @@ def _electrum_part(ctx: Ctx, lang: str) -> None:
             for tname, sent in forms:
                 _version_verdict(ctx, electrum, sent, OI, case, f"typed:{tname}")
                 ctx.case("electrum:typed-form", ("etyped", lang, sent))
-            o = outcome(dispatch.all_seed_types_from_mnemonic, ref_m, lang)
-            if o[0] == "raise" or f"electrum_{ref_type}" not in o[1]:
-                ctx.violation("dispatch:electrum-seed-not-named", f"{ref_m!r} ({ref_type}): all_seed_types_from_mnemonic -> {o[1]!r}", {**case, "mnemonic": ref_m})
+            _dispatch(ctx, dispatch, ref_m, lang, case, must=(f"electrum_{ref_type}",), tag="electrum-seed")
             ctx.case("dispatch:electrum", ("edisp", lang, ref_m))
             # ---- master key = BIP32 of PBKDF2(normalized sentence, "electrum" + normalized passphrase)
             for _ in range(2):
@@ -1089,9 +1124,7 @@ def shard_slip39(ctx: Ctx) -> None:
                     if o[0] == "raise" or o[1] != rb.root(secret).b58():
                         ctx.violation("slip39-mxprv:not-bip32-root-of-secret", f"mxprv_from_mnemonics -> {o[1]!r}", scase)
                     ctx.case("slip39:mxprv", ("smx", key, secret))
-                    o = outcome(dispatch.all_seed_types_from_mnemonic, flat[0])
-                    if o[0] == "raise" or "slip39" not in o[1]:
-                        ctx.violation("dispatch:slip39-share-not-named", f"{flat[0]!r}: all_seed_types_from_mnemonic -> {o[1]!r}", scase)
+                    _dispatch(ctx, dispatch, flat[0], None, scase, must=("slip39",), tag="slip39-share")
                     ctx.case("dispatch:slip39", ("sdisp", flat[0]))
                 if si < 3:
                     # ---- every subset one share short
